@@ -273,7 +273,31 @@ macro_rules! by_mask {
 
 pub const MAX_POS: usize = 6;
 
+/// Special "masks": a matcher that panics (user code), and a pattern without matcher function.
+pub const MASK_PANICKING_MATCHER: u8 = 254;
+pub const MASK_NO_MATCHER_FN: u8 = 255;
+
+/// Answer ids from this value on panic instead of answering (user panic).
+pub const PANICKING_ANSWER_ID: u32 = 9000;
+
+macro_rules! special_or {
+    ($recv:expr, $entry:ident, $mask:expr, $normal:expr) => {
+        if $mask == MASK_NO_MATCHER_FN {
+            $recv.$entry(&|_m| {})
+        } else if $mask == MASK_PANICKING_MATCHER {
+            $recv.$entry(&|m| {
+                m.func(|_, _| panic!("{}", USER_PANIC_MATCHER));
+            })
+        } else {
+            $normal
+        }
+    };
+}
+
 fn start_some<F: UF>(f: F, pos: usize, mask: u8) -> DefineResponse<'static, F, InAnyOrder> {
+    if mask >= MASK_PANICKING_MATCHER {
+        return special_or!(f, some_call, mask, unreachable!());
+    }
     match pos {
         0 => by_mask!(f, some_call, mask),
         1 => by_mask!(f, some_call, mask),
@@ -286,6 +310,9 @@ fn start_some<F: UF>(f: F, pos: usize, mask: u8) -> DefineResponse<'static, F, I
 }
 
 fn start_each<F: UF>(f: F, pos: usize, mask: u8) -> DefineMultipleResponses<'static, F, InAnyOrder> {
+    if mask >= MASK_PANICKING_MATCHER {
+        return special_or!(f, each_call, mask, unreachable!());
+    }
     match pos {
         0 => by_mask!(f, each_call, mask),
         1 => by_mask!(f, each_call, mask),
@@ -298,6 +325,9 @@ fn start_each<F: UF>(f: F, pos: usize, mask: u8) -> DefineMultipleResponses<'sta
 }
 
 fn start_next<F: UF>(f: F, pos: usize, mask: u8) -> DefineResponse<'static, F, InOrder> {
+    if mask >= MASK_PANICKING_MATCHER {
+        return special_or!(f, next_call, mask, unreachable!());
+    }
     match pos {
         0 => by_mask!(f, next_call, mask),
         1 => by_mask!(f, next_call, mask),
@@ -314,6 +344,9 @@ fn start_stub<'e, F: UF>(
     pos: usize,
     mask: u8,
 ) -> DefineMultipleResponses<'e, F, InAnyOrder> {
+    if mask >= MASK_PANICKING_MATCHER {
+        return special_or!(each, call, mask, unreachable!());
+    }
     match pos {
         0 => by_mask!(each, call, mask),
         1 => by_mask!(each, call, mask),
@@ -401,6 +434,9 @@ fn static_answer(id: u32) -> &'static UAnswerFn {
         *m.borrow_mut().entry(id).or_insert_with(|| {
             let f: Box<UAnswerFn> = Box::new(move |_u, x| {
                 log(LogEv::Answer(id, x));
+                if id >= PANICKING_ANSWER_ID {
+                    panic!("{}", USER_PANIC_ANSWER);
+                }
                 id
             });
             Box::leak(f)
@@ -411,6 +447,9 @@ fn static_answer(id: u32) -> &'static UAnswerFn {
 fn arc_answer(id: u32) -> Arc<UAnswerFn> {
     Arc::new(move |_u: &Unimock, x: u8| {
         log(LogEv::Answer(id, x));
+        if id >= PANICKING_ANSWER_ID {
+            panic!("{}", USER_PANIC_ANSWER);
+        }
         id
     })
 }
